@@ -157,7 +157,7 @@ func mutateLang(r *hx.Rand, eco string, v langVer) langVer {
 			w.epoch++
 		}
 	case 1:
-		if len(w.release) < 4 {
+		if len(w.release) < maxRelease(eco) {
 			w.release = append(w.release, genLangDigits(r))
 		}
 	case 2:
@@ -215,7 +215,7 @@ func capLang(s string) string {
 func renderLang(r *hx.Rand, eco string, v langVer, variants bool) string {
 	var b strings.Builder
 	rel := v.release
-	if variants && r.Chance(1, 5) && len(rel) < 4 {
+	if variants && r.Chance(1, 5) && len(rel) < maxRelease(eco) {
 		rel = append(append([]string(nil), rel...), "0") // a trailing zero component
 	}
 	switch eco {
